@@ -32,7 +32,7 @@ TEXT = {
             "TLC model checking of TaskList.tla + edge-covering tours of its state graph replayed on the real plan + trace validation"),
     "C13": ("BitStream.tla transcribes the per-byte chunk loops of write<W>/read<W>; TLC checks packing (no gaps, LSB first, tail zero, cursor arithmetic) and round trips for field sequences with boundary patterns, and bitWidth sufficiency for every state count 1..255 (ASSUME); the real streams (also streams opened at a start cursor over a dirty buffer) are driven over every (start offset, width 1..32) pair at several capacities with raw buffer bytes and cursors compared after every operation, bitWidth() compared on powers of two +-1 and random 32-bit values.",
             "TLC model checking of BitStream.tla + byte-exact trace validation of the real streams"),
-    "C20": ("BitArray.tla models the byte/mask implementation and TLC checks it against a set of integers (get, empty, padding bits) over the complete graphs for capacities 1,7,8,9 (12 in thorough); every transition of those graphs is replayed on the real BitArrayT, plus random sequences at other capacities; Arrays.tla does the same for the fixed and growable arrays (iteration order, fill/clear).",
+    "C20": ("BitArray.tla models the byte/mask implementation and TLC checks it against a set of integers (get, empty, padding bits) over the complete graphs for capacities 1,7,8,9 (12 in thorough); every transition of those graphs is replayed on the real BitArrayT, plus random sequences at other capacities up to 255 and, for the bit array alone, 300 bits (thorough also 256, 257, 512: indices an 8-bit value cannot hold); Arrays.tla does the same for the fixed and growable arrays (iteration order, fill/clear).",
             "TLC model checking of BitArray.tla / Arrays.tla + edge-covering tours replayed on the real containers"),
     "C11": ("History rules (previousTransition equals the surviving transition, empty if none, replayTransition(invalid) changes nothing) are checked by TLC on the specification and by the history monitor on recorded traces; a second real instance with hostile guards is kept in sync purely through replayEnter/replayTransition and must show the same active state after every step.",
             "TLC model checking + history monitor + authority/replica lock-step on the real code"),
